@@ -108,6 +108,7 @@ def run(ctx):
         if ok and len(changes) >= 2:
             ctx.sample({'head': head, 'last': last0, 'changes': changes, 'step': step, 'mode': mode, 'out': out}, limit=4)
     ctx.exhaustive = True
+    dense_cases(ctx)
     # longer ranges: TLC -simulate cannot pick large inputs uniformly, so the thorough tier adds a second exhaustive instance
     if not ctx.quick:
         r2 = ctx.tlc('Search', CFG % (100, 40, 2, '1, 7, 60'), name='Search_long', timeout=1500)
@@ -117,6 +118,30 @@ def run(ctx):
             compare(ctx, head, 100, changes, step, mode, out)
             ctx.replayed += 1
             ctx.count((head, changes, step, mode), nontrivial=len(changes) > 0)
+
+
+def dense_cases(ctx):
+    """Histories far denser and longer than TLC enumerates (dozens to hundreds of changes, runs of changes on consecutive levels, many changes inside one
+    sampling interval, a change on every sampled level).  What Search.tla proves of the algorithm (invariants AllChangesReported and Increasing) is the expectation: the
+    output is the list of all changes in increasing order, each with the value from that level on."""
+    import random
+    rng = random.Random(ctx.seed * 7919 + 29)
+    cases = []
+    for last, head, step in ((0, 200, 60), (0, 200, 150), (7, 400, 60), (0, 130, 200), (3, 190, 7), (0, 260, 61)):
+        span = range(last + 1, head + 1)
+        cases.append((head, last, tuple(span), step))                                  # a change on every level
+        cases.append((head, last, tuple(range(last + 20, last + 20 + 100)), step))     # 100 consecutive levels, crossing sampled levels
+        cases.append((head, last, tuple(range(head - 40, head + 1)), step))           # a dense run that ends at the head
+        cases.append((head, last, tuple(l for l in span if l % 2), step))
+        cases.append((head, last, tuple(l for l in span if (head - l) % step == 0 or (head - l) % step == 1), step))      # on and next to the sampled levels
+        for _ in range(2 if ctx.quick else 8):
+            cases.append((head, last, tuple(sorted(rng.sample(list(span), rng.randint(17, min(120, len(span)))))), step))
+    for head, last, changes, step in cases:
+        out = tuple((l, k + 1) for k, l in enumerate(changes))
+        compare(ctx, head, last, changes, step, 'all', out, sig='C29:dense')
+        ctx.replayed += 1
+        ctx.count(('dense', head, last, changes, step), nontrivial=True)
+    ctx.extra['dense_histories'] = len(cases)
 
 
 def replay(ctx, rep):
